@@ -6,7 +6,7 @@ spec/ResolverGen.tla (program universes), MC_Resolver (Exact / Sound / PassBound
 Gen_Resolver (programs exported with verdict, types, indexes and predicted output),
 Trace_Resolver (resolutions of richer random programs recorded from the real parser, validated by TLC).
 """
-import copy
+import copy, os
 
 
 def corrupt(case, rnd):
@@ -43,6 +43,7 @@ def consts(**kw):
 
 def run(ctx):
     q = ctx.quick
+    os.environ['_JAVA_OPTIONS'] = f'-XX:ParallelGCThreads={max(2, min(ctx.cores, 8))}'
     ctx.rule = ('a case is one abstract program (functions with parameters, a main body over globals; statements: scalar '
                 'use, array use, length(v), call with variable/constant arguments, possibly fewer than parameters, incl. '
                 'recursion) exported by TLC from Gen_Resolver with the declarative verdict, types and predicted output, and '
